@@ -389,10 +389,12 @@ func (r *RectClip64) executeInternalPath64(path Path64) {
 	var loc Location
 	var ok bool
 	if loc, ok = getLocation(r.rect, path[0]); !ok {
-		prev, ok2 := getLocation(r.rect, path[i])
-		for i <= highI && !ok2 {
+		for i <= highI {
+			var ok2 bool
+			if prev, ok2 = getLocation(r.rect, path[i]); ok2 {
+				break
+			}
 			i++
-			prev, ok2 = getLocation(r.rect, path[i])
 		}
 		if i > highI {
 			for _, pt := range path {
@@ -976,7 +978,7 @@ func startLocsAreClockwise(startLocs []Location) bool {
 
 func getPathRectClipLine(op *OutPt2) Path64 {
 	var result Path64
-	if op == nil || op.prev == op.next {
+	if op == nil || op == op.next {
 		return result
 	}
 	op = op.next
